@@ -79,4 +79,14 @@ func init() {
 	register("C09", "other", checkC09)
 	register("C07", "other", checkC07)
 	register("C10", "other", checkC10)
+	register("C13", "proof", checkC13)
+	register("XERR", "other", func(res *Result) {
+		p := loadPub()
+		E := computeEffects(p)
+		var names []string
+		for _, f := range p.Funcs {
+			names = append(names, fname(f))
+		}
+		addErrFlowObligations(res, p, E, "XERR", names, os.Getenv("TRACKALL") != "")
+	})
 }
